@@ -520,16 +520,19 @@ func (k *KVStore) scanCommon(cursor uint64, expr string, count int, f func(e sto
 	}
 
 	if tableCursor == 0 {
-		_, ok := k.tablesByCoefficient[cf+1]
+		next := cf + 1
+		_, ok := k.tablesByCoefficient[next]
 		if !ok {
-			cf, err = k.findCoefficient(cf)
+			// There is a hole in the numbering (a table was recycled or dropped).
+			// findCoefficient already returns the coefficient of the next table.
+			next, err = k.findCoefficient(cf)
 			if err != nil {
 				// Invalid cursor
 				return 0, nil
 			}
 		}
 		// The next table
-		return k.tableSize * (cf + 1), nil
+		return k.tableSize * next, nil
 	}
 
 	return tableCursor + (k.tableSize * cf), nil
